@@ -54,7 +54,7 @@ def compile_text(text, scope, start_year=2000, until_year=2050, tz_version='veri
                     notable_zones=notable_zones, notable_policies=notable_policies, notable_links=notable_links,
                     tzdb=tzdb, zone_infos=zone_infos, zone_policies=zone_policies, scope=scope, start_year=start_year, until_year=until_year)
 
-def generate(compiled, language, outdir, db_namespace=None, invocation='verif'):
+def generate(compiled, language, outdir, db_namespace=None, invocation='verif', buf_sizes=None):
     """Write generated files (arduino or python) for a compiled source into outdir."""
     from zonedb.argenerator import ArduinoGenerator
     from zonedb.pygenerator import PythonGenerator
@@ -66,7 +66,8 @@ def generate(compiled, language, outdir, db_namespace=None, invocation='verif'):
             PythonGenerator(invocation=invocation, tzdb=tzdb).generate_files(outdir)
         elif language == 'arduino':
             ns = db_namespace or ('zonedb' if tzdb['scope'] == 'basic' else 'zonedbx')
-            buf_sizes, max_size = BufSizeEstimator(compiled.zone_infos, compiled.zone_policies, tzdb['start_year'], tzdb['until_year']).estimate()
+            if buf_sizes is None:
+                buf_sizes, max_size = BufSizeEstimator(compiled.zone_infos, compiled.zone_policies, tzdb['start_year'], tzdb['until_year']).estimate()
             ArduinoGenerator(invocation=invocation, db_namespace=ns, generate_zone_strings=False, tzdb=tzdb, buf_sizes=buf_sizes).generate_files(outdir)
         elif language == 'zonelist':
             ZoneListGenerator(invocation=invocation, tzdb=tzdb).generate_files(outdir)
